@@ -241,6 +241,16 @@ fn build(cx: &Cx, e: &BodyExpr) -> (Incr<i64>, Hid) {
             }
             (n, hid)
         }
+        BodyExpr::Ref(inner, proj) if *proj == 2 => {
+            // the identity view, directly over the inner expression (possibly an outer node)
+            let (ie, he) = build(cx, inner);
+            let n = ie.map_ref(|x: &i64| x);
+            let hid = w.register(NodeH::I(n.clone()), RK::MapRef { src: he, proj: 2 }, Some(cx.scope), cx.export, false, cx.hb);
+            if cx.export {
+                w.last_exported.set(Some(hid));
+            }
+            (n, hid)
+        }
         BodyExpr::Ref(inner, proj) => {
             let (ie, he) = build(cx, inner);
             let hid1 = w.next_hid();
